@@ -15,6 +15,9 @@ PROBES = ["NeverDepth3", "NeverStaticWriteAttempt", "NeverRollbackOfWrite", "Nev
           "NeverCreated", "NeverValueMoved", "NeverLog", "NeverReentered", "NeverLooped"]
 
 
+MUTANTS = [("delegate", "InvContext"), ("staticleak", "InvContext"), ("norollback", "InvFailure"), ("valuecreated", "InvBalance"), ("logskept", "InvFailure")]
+
+
 def design_model_check(chk: Check, tier: str):
     """EvmSmall.tla: the reference machine at WB = 1 on every program of a gadget family, all frame invariants."""
     from concurrent.futures import ThreadPoolExecutor
@@ -34,10 +37,18 @@ def design_model_check(chk: Check, tier: str):
         def probe(name):
             return name, run_tlc("EvmSmall", f"MC_EvmSmall_p_{name}.cfg", work=work, workers=4, timeout=1800, expect_violation=True)
 
+        def mutant(nm_inv):
+            return nm_inv, run_tlc("EvmSmall", f"MC_EvmSmall_m_{nm_inv[0]}.cfg", work=work, workers=4, timeout=1800, expect_violation=True)
+
         with ThreadPoolExecutor(4) as pool:
             for name, tr in pool.map(probe, PROBES):
                 if tr.violated != name:
                     raise MachineryError(f"EvmSmall: the situation behind {name} is not reachable in the model (vacuous invariants): {tr.violated} rc={tr.rc}")
+                chk.count("negative_controls_rejected")
+            # wrong designs of the machine (Evm!Mutation): each must be refuted by the invariant that is about it
+            for (name, inv), tr in pool.map(mutant, MUTANTS):
+                if tr.violated != inv:
+                    raise MachineryError(f"EvmSmall: the design mutation {name} is not refuted by {inv} ({tr.violated} rc={tr.rc})")
                 chk.count("negative_controls_rejected")
     finally:
         cleanup(work)
@@ -78,6 +89,7 @@ def run(chk: Check, tier: str):
         "compared with Evm.tla, whose frame invariants (ContextCorrect, StaticNoWrite, BalanceConserved, "
         "FailureRestores) TLC checks in every state of every behaviour; the same machine text is model-checked exhaustively "
         "at WB = 1 (EvmSmall.tla: every program of a 26-gadget family over three accounts, all call kinds, value, static flag, "
-        "depth limit) with 11 invariants, 4 step properties and 11 reachability probes that must be violated"
+        "depth limit) with 11 invariants, 4 step properties, 11 reachability probes that must be violated and 5 design mutations "
+        "(wrong DELEGATECALL caller, static flag not inherited, no rollback, value created, logs kept) that must be refuted"
     )
     chk.assumptions += ["created-account addresses compared up to renaming (A3)", "no gas"]
